@@ -3,6 +3,8 @@ mod proj;
 mod util;
 mod tables;
 mod c04;
+mod textrec;
+mod text;
 mod c17;
 mod laws;
 mod pipeline;
@@ -41,9 +43,12 @@ fn main() {
         }
         ("replay", "C17") => c17::replay(),
         ("faults", _) => c17::print_counts(),
+        ("replay", "text") => text::replay(),
         ("replay", "pipeline") => pipeline::replay_schedules(),
         ("record", "C02") | ("record", "C06") | ("record", "C07") | ("record", "C08") | ("record", "C14") =>
             laws::record(id, &args[3], &args[4], args.get(5).and_then(|s| s.parse().ok()).unwrap_or(5)),
+        ("record", "C09") => textrec::record_c09(&args[3], args.get(4).and_then(|s| s.parse().ok()).unwrap_or(1000)),
+        ("record", "C01") => textrec::record_c01(&args[3], args[4].parse().unwrap(), args.get(5).and_then(|s| s.parse().ok()).unwrap_or(100)),
         ("record", "pipeline") => pipeline::record(&args[3], args.get(4).and_then(|s| s.parse().ok()).unwrap_or(100), util::env_u64("VERIF_SEED", 1)),
         _ => { eprintln!("usage: asca-conform tables <dir> | replay <id> | record <id> <out>"); std::process::exit(2); }
     }
